@@ -308,5 +308,35 @@ def aux(rng, tier, escalate):
                 if got != exp:
                     failures.append({"case": {"class": cls.__name__, "text": s}, "observed": got, "expected": exp,
                                      "detail": "text acceptance/value differs from ipaddress: %s(%r) -> %s, ipaddress -> %s" % (cls.__name__, s, got, exp)})
+    # generated IPv6 spellings: every '::' position, exploded / compressed / upper case, embedded IPv4 tail,
+    # separators, boundary and out-of-range prefix lengths, and malformed variants
+    def v6_spellings(val):
+        groups = ["%x" % ((val >> (112 - 16 * i)) & 0xFFFF) for i in range(8)]
+        outs = {":".join(groups), str(ipaddress.IPv6Address(val)), ipaddress.IPv6Address(val).exploded, ":".join(groups).upper()}
+        for i in range(8):
+            for j in range(i + 1, 9):
+                if all(g == "0" for g in groups[i:j]):
+                    outs.add(":".join(groups[:i]) + "::" + ":".join(groups[j:]))
+        tail = str(ipaddress.IPv4Address(val & 0xFFFFFFFF))
+        outs.add(":".join(groups[:6]) + ":" + tail)
+        if all(g == "0" for g in groups[:5]):
+            outs.add("::" + groups[5] + ":" + tail)
+        bad = {":".join(groups + ["1"]), ":".join(groups[:7]), ":".join(groups[:7]) + ":12345", ":".join(groups[:7]) + ":g", "::" + ":".join(groups) if groups[0] != "0" else "1::2::3",
+               ":".join(groups[:3]) + "::" + ":".join(groups[4:6]) + "::" + groups[7], ":" + ":".join(groups[1:]), ":".join(groups[:7]) + ":"}
+        return outs, bad
+    for t in range(60 if not big else 400):
+        val = rng.choice([0, 1, (1 << 128) - 1, 0xFFFF00000000 | rng.getrandbits(32), rng.getrandbits(128), rng.getrandbits(64) << 64, rng.getrandbits(16) << 112,
+                          (0x20010DB8 << 96) | rng.getrandbits(16), rng.getrandbits(128) & ~(0xFFFFFFFF << 48)])
+        good, bad = v6_spellings(val)
+        for a in sorted(good) + sorted(bad):
+            for suffix in ("", "/%d" % rng.randint(0, 128), " %d" % rng.randint(0, 128), "/0", "/128", "/129", "/-1", "/6 4", "/64x", "/", "/ 64"):
+                if suffix and rng.random() < 0.6:
+                    continue
+                text = rng.choice(["", "", " ", "\t"]) + a + suffix + rng.choice(["", "", " "])
+                n += 1
+                got, exp = _impl(IPv6Obj, text), _std6(text)
+                if got != exp:
+                    failures.append({"case": {"class": "IPv6Obj", "text": text}, "observed": got, "expected": exp,
+                                     "detail": "text acceptance/value differs from ipaddress: IPv6Obj(%r) -> %s, ipaddress -> %s" % (text, got, exp)})
     return {"evaluations": n, "failures": failures[:50], "n_failures": len(failures),
             "note": "one-edit neighbourhood of valid spellings, accept/reject and (address, prefix) compared with ipaddress (test, not proof)"}
